@@ -222,6 +222,19 @@ RsOn(cs) == <<VecOn(cs, R1), VecOn(cs, R2), VecOn(cs, R3)>>                     
 YsOn(n) == <<PVecOn(n, YPat), PVecOn(n, ZPat)>>
 GsOn(n) == <<PVecOn(n, GPat), PVecOn(n, HPat)>>
 AllMemberOn(cs, x) == \A k \in 1..Len(cs) : Member(cs[k], x[k])
+\* ---- probe JACOBIAN (2 x dim, one gradient per row): distinct rows, zero entries at different places in the
+\*      two rows (a non-trivial, non-symmetric sparsity pattern), entries that are multiples of 1/2 (exact scaling)
+J1Pat == <<8, 0, -24, 16, 0, 40>>
+J2Pat == <<12, 4, 0, -20, -8, 0>>
+JacOn(n) == <<PVecOn(n, J1Pat), PVecOn(n, J2Pat)>>
+MapRowsOn(cs, f(_, _), m) == [r \in 1..Len(m) |-> MapOn(cs, f, m[r])]
+\* the REPRESENTATIONS in which a gradient / Jacobian may be handed to normalize_grad / unnormalize_grad (a row at
+\* a time as a 1-D array, a dense 2-D array, scipy.sparse arrays in CSR, CSC and COO storage).  The image is a
+\* function of the MATRIX: it is the same in every representation, and the argument is left unchanged.
+GradReprs == <<"dense1d", "dense2d", "csr", "csc", "coo">>
+\* project_into_bounds(y, normalized=True): y is a NORMALISED vector, i.e. its normalised components live in [0,1]
+\* and the others are still in the units of the variable, where the bounds of the variable apply
+ProjN(c, y) == IF c.norm THEN Proj01(y) ELSE Proj(c, y)
 RECURSIVE Join(_)
 Join(d) == IF d = <<>> THEN <<>> ELSE Head(d) \o Join(Tail(d))
 SplitOn(rg, x) == [i \in 1..Len(rg) |-> SubSeq(x, rg[i][1] + 1, rg[i][2])]       \* array -> dict (in variable order)
@@ -267,6 +280,11 @@ View == LET cs == C  n == Len(cs)  rg == Ranges  xs == XsOn(cs)  rs == RsOn(cs) 
   gs     |-> gs,
   ng     |-> [p \in 1..Len(gs) |-> MapOn(cs, NG, gs[p])],             \* normalize_grad
   ug     |-> [p \in 1..Len(gs) |-> MapOn(cs, UG, gs[p])],             \* unnormalize_grad
+  greprs |-> GradReprs,                                               \* representations of a gradient/Jacobian argument
+  jac    |-> JacOn(n),                                                \* probe Jacobian (2 x dim)
+  ngj    |-> MapRowsOn(cs, NG, JacOn(n)),                             \* normalize_grad(Jacobian), whatever the representation
+  ugj    |-> MapRowsOn(cs, UG, JacOn(n)),                             \* unnormalize_grad(Jacobian), whatever the representation
+  pnb    |-> [p \in 1..Len(ys) |-> MapOn(cs, ProjN, ys[p])],          \* project_into_bounds(normalized=True), all components
   snames |-> Join([i \in 1..Len(vars) |-> [j \in 1..vars[i].size |->       \* get_indexed_variable_names / to_scalar_variables
                 IF vars[i].size = 1 THEN vars[i].name ELSE vars[i].name \o "[" \o ToString(j - 1) \o "]"]]),
   shasv  |-> [k \in 1..n |-> cs[k].hasv],
@@ -319,11 +337,25 @@ Algebra == LET cs == C  n == Len(cs)  xs == XsOn(cs)  ys == YsOn(n)  gs == GsOn(
           UGdefined(c) => (UG(c, NG(c, g)) = g /\ NG(c, UG(c, g)) = g)
   \* Lossless: dict <-> array
   /\ \A p \in 1..Len(xs) : Join(SplitOn(Ranges, xs[p])) = xs[p]
+\* the same algebra on the probe Jacobian and on the projection of normalised vectors
+JacAlgebra == LET cs == C  n == Len(cs)  jac == JacOn(n)  ys == YsOn(n) IN
+  /\ (n > 0 => jac[1] # jac[2])
+  /\ \A k \in 1..n : LET c == cs[k] IN
+     /\ \A r \in 1..Len(jac) : LET g == jac[r][k] IN
+          /\ (c.norm => ((g * W(c)) % U = 0 /\ (W(c) > 0 => (U * g) % W(c) = 0)))        \* ExactSlice
+          /\ (UGdefined(c) => (UG(c, NG(c, g)) = g /\ NG(c, UG(c, g)) = g))              \* GradInverse, row by row
+          /\ (~c.norm => (NG(c, g) = g /\ UG(c, g) = g))                                 \* the other columns are unchanged
+     \* ProjNormMember: the projection of a normalised vector is the normalised image of a member, and a
+     \* normalised vector that is the image of a member is left unchanged
+     /\ \A p \in 1..Len(ys) : LET y == ys[p][k] IN
+          /\ Member(c, U0(c, ProjN(c, y)))
+          /\ (Member(c, U0(c, y)) /\ (c.norm => W(c) > 0) => ProjN(c, y) = y)
 \* TLC also evaluates invariants on the (many, never stored) states just beyond the depth bound: skip them there
 InBound == TLCGet("level") <= MaxLevel    \* (not the CONSTRAINT operator itself: TLC -coverage cannot share it)
 TypeOKB == InBound => TypeOK
 PartitionB == InBound => Partition
 AlgebraB == InBound => Algebra
+JacAlgebraB == InBound => JacAlgebra
 \* rounded values are integers at distance at most 1/2 (constant-level)
 ASSUME Rounding == \A x \in -40..40 : /\ RLo(x) % U = 0 /\ RHi(x) % U = 0 /\ RLo(x) <= RHi(x)
                                       /\ x - RLo(x) <= 4 /\ RLo(x) - x <= 4 /\ x - RHi(x) <= 4 /\ RHi(x) - x <= 4
